@@ -102,6 +102,10 @@ pub fn cov_new(i: u8) -> Covenant {
 pub fn addr_true() -> Address {
     cov_true().hash()
 }
+/// A second always-true address (another covenant hash), so that an address can lose its last coin.
+pub fn addr_true2() -> Address {
+    cov_true_n(1).hash()
+}
 
 // ---------------------------------------------------------------------------------------------
 // transactions
@@ -132,7 +136,8 @@ pub fn mktx(kind: TxKind, inputs: Vec<CoinID>, outputs: Vec<CoinData>, fee: u128
 
 /// Transaction spending coins locked by the always-true covenant.
 pub fn tx_t(kind: TxKind, inputs: Vec<CoinID>, outputs: Vec<CoinData>, fee: u128, data: Vec<u8>) -> Transaction {
-    mktx(kind, inputs, outputs, fee, vec![cov_true().to_bytes()], data)
+    // both always-true covenants are carried, so that wallet coins under either address can be spent
+    mktx(kind, inputs, outputs, fee, vec![cov_true().to_bytes(), cov_true_n(1).to_bytes()], data)
 }
 
 pub fn min_fee(tx: &Transaction, mult: u128) -> u128 {
